@@ -87,7 +87,7 @@ edition = "2021"
 derive_more = { path = "%s", default-features = false, features = [%s] }
 """ % (common.REPO, feats))
     lock = os.path.join(common.REPO, "Cargo.lock")
-    if not os.path.exists(os.path.join(pdir, "Cargo.lock")):
+    if not os.path.exists(os.path.join(pdir, "Cargo.lock")) and os.path.exists(lock):
         shutil.copy(lock, os.path.join(pdir, "Cargo.lock"))
     lines = ["#![allow(unused_imports)]"]
     for path, _ in probe_names():
@@ -162,7 +162,7 @@ derive_more = { path = "%s", default-features = false, features = [%s] }
 rt = { path = "%s" }
 """ % (common.REPO, feats, os.path.join(common.VERIF, "harness", "rt")))
     lock = os.path.join(common.REPO, "Cargo.lock")
-    if not os.path.exists(os.path.join(cdir, "Cargo.lock")):
+    if not os.path.exists(os.path.join(cdir, "Cargo.lock")) and os.path.exists(lock):
         shutil.copy(lock, os.path.join(cdir, "Cargo.lock"))
     lines = ("#![allow(warnings)]\n" + items_mod.PRELUDE).split("\n")
     ranges = []
